@@ -136,6 +136,7 @@ def fold_getattr(repo: Repo) -> dict | None:
         "a constant 5": ({"N": 5}, {}, "N", 5), "a constant 0": ({"N": 0}, {}, "N", 0), "a constant ''": ({"N": ""}, {}, "N", ""),
         "a constant None": ({"N": None}, {}, "N", None), "a constant False": ({"N": False}, {}, "N", False),
         "a type": ({}, {"t": ty}, "t", ty), "an alias by name": ({}, {"a": "t", "t": ty}, "a", ty), "a name that is both": ({"x": 7}, {"x": ty}, "x", 7),
+        "a constant named like an include guard": ({"__PROTO_H__": 1}, {}, "__PROTO_H__", 1), "a type with a dunder name": ({}, {"__u8__": ty}, "__u8__", ty),
         "an unknown name": ({"N": 1}, {"t": ty}, "zz", "AttributeError"), "a dangling alias": ({}, {"a": "missing"}, "a", "ResolveError"),
     }
     out: dict = {"cases": 0, "bad": []}
@@ -191,7 +192,7 @@ def _sleb(n: int) -> bytes:
 
 def leb_values() -> list[int]:
     vals = set(range(-300, 300))
-    for k in range(6, 71):
+    for k in list(range(6, 71)) + [126, 133, 140, 196]:   # encodings of 19, 20, 21 and 28 groups: no length is special
         for d in (-1, 0, 1):
             vals.add((1 << k) + d)
             vals.add(-(1 << k) + d)
@@ -565,7 +566,8 @@ def fold_struct_layout(repo: Repo, max_len: int = 2) -> dict | None:
         seqs += list(itertools.product(names, repeat=n))
     seqs += [("u8", "u32", "u16"), ("u8:3", "u8:5", "u8:3"), ("u16:4", "u16:12", "u16:4"), ("u8", "dyn", "u32", "u8"), ("u8:3", "u16:4", "u8:3", "u32"),
              ("u32", "u8:3", "u8@1", "u16"), ("c5", "u64", "u8", "e16:4", "u16:4"), ("u8", "i24", "u8", "u64"), ("u8:3", "dyn4", "u8:3", "u32"),
-             ("dyn", "u8:3", "u8:5"), ("u8", "dyn4", "u16:4", "u16:12", "u8"), ("dyn", "u8:3", "u16:4", "u16:4")]
+             ("dyn", "u8:3", "u8:5"), ("u8", "dyn4", "u16:4", "u16:12", "u8"), ("dyn", "u8:3", "u16:4", "u16:4"), ("dyn", "u8:5", "u8:5"), ("dyn", "u16:12", "u16:12"),
+             ("u8", "dyn", "u32:12", "u32:12", "u32:12"), ("u64", "u8"), ("u8", "u64", "u8")]
     out: dict = {"cases": 0, "struct_bad": [], "union_bad": []}
     try:
         for seq in seqs:
@@ -584,6 +586,18 @@ def fold_struct_layout(repo: Repo, max_len: int = 2) -> dict | None:
                 out["cases"] += 1
                 if got != want and len(out["struct_bad"]) < 5:
                     out["struct_bad"].append((seq, "aligned" if align else "packed", got, want))
+                elif isinstance(got, tuple):
+                    # a second commit sees the offsets the first one recorded on the fields: the layout must come out the same (size, alignment, offsets)
+                    try:
+                        r2 = Evaluator(env, steps=20000).call_user(UserFunc(sfi.node), [Sym("cls"), fields, align], {})
+                        got2: Any = (r2[0], r2[1], [f.attrs["offset"] for f in fields])
+                    except Raised as e:
+                        got2 = f"raise {e}"
+                    except ArithmeticError as e:
+                        got2 = f"{type(e).__name__}: {e}"
+                    out["cases"] += 1
+                    if got2 != got and len(out["struct_bad"]) < 5:
+                        out["struct_bad"].append((seq, ("aligned" if align else "packed") + ", calculated a second time on the same fields (a later commit)", got2, got))
                 # union: size of the largest member (None when one is dynamic), rounded up to the largest alignment in aligned mode
                 if not any(k.get("bits") or k.get("offset") is not None for k in ks):
                     fields = [Sym(f"field{i}", {"_name": f"f{i}", "type": type_of(n_, k), "bits": None, "offset": None, "alignment": k["align"]})
@@ -980,6 +994,157 @@ def fold_union_proxies(repo: Repo) -> dict | None:
     except Raised as e:
         out["bad"].append(("proxies", "model union", f"raised {e}", "no error"))
         return out
+    except (TypeError, KeyError, IndexError, ValueError, AttributeError):
+        return None
+
+
+def fold_array_count(repo: Repo) -> dict | None:
+    """Parser._array_count over (size text, earlier fields, constants): a size that names an earlier field (as a whole token) stays an expression for
+    read time, also when a constant of that name exists; everything else that the expression evaluator can evaluate becomes a number, with C literal
+    rules (a leading 0 is octal); what cannot be evaluated stays an expression."""
+    import re as _re
+
+    fi = repo.func_opt("parser.py", "Parser._array_count")
+    if fi is None:
+        return None
+    out: dict = {"cases": 0, "bad": []}
+
+    def c_int(tok: str):
+        t = tok.rstrip("uUlL")
+        if _re.fullmatch(r"0[xX][0-9a-fA-F]+", t):
+            return int(t, 16)
+        if _re.fullmatch(r"0[bB][01]+", t):
+            return int(t, 2)
+        if _re.fullmatch(r"0[0-7]+", t):
+            return int(t, 8)
+        if _re.fullmatch(r"[0-9]+", t):
+            return int(t)
+        return None
+
+    cases = [
+        # (size text, earlier field names, constants, expected: number | "expr")
+        ("4", [], {}, 4), ("010", [], {}, 8), ("0x10", ["x"], {}, 16), ("0017", ["a"], {}, 15), ("n", ["n"], {}, "expr"), ("n", ["n"], {"n": 2}, "expr"), ("n * 2", ["n"], {}, "expr"),
+        ("max_len", ["len"], {"max_len": 6}, 6), ("COUNT", ["x"], {"COUNT": 3}, 3), ("COUNT * 2 + 1", [], {"COUNT": 3}, 7), ("unknown", ["x"], {}, "expr"), ("EOF", [], {}, "expr"),
+        ("len", [], {"len": 5}, 5), ("0", ["a"], {}, 0), ("tag", ["t", "ta"], {"tag": 9}, 9),
+    ]
+    try:
+        for text, fields, consts, want in cases:
+            toks = _re.findall(r"[A-Za-z_][A-Za-z0-9_]*|0[xX][0-9a-fA-F]+|[0-9]+[uUlL]*|<<|>>|\S", text)
+
+            def evaluate(context=None, toks=toks, consts=consts):
+                src = []
+                for t in toks:
+                    ci = c_int(t)
+                    if ci is not None:
+                        src.append(str(ci))
+                    elif _re.fullmatch(r"[A-Za-z_]\w*", t):
+                        if context and t in context:
+                            src.append(str(context[t]))
+                        elif t in consts:
+                            src.append(str(consts[t]))
+                        else:
+                            raise Raised(f"ExpressionParserError('unknown name {t}')")
+                    elif t in "+-*/()%&|^~" or t in ("<<", ">>"):
+                        src.append("//" if t == "/" else t)
+                    else:
+                        raise Raised("ExpressionTokenizerError('bad token')")
+                return int(eval(compile(ast.parse(" ".join(src), mode="eval"), "<size>", "eval"), {"__builtins__": {}}, {}))  # the checker's own arithmetic on its own numbers
+
+            def expression(cs_, text_, toks=toks, evaluate=evaluate):
+                return Sym(f"expr:{text_}", {"tokens": list(toks), "expression": text_}, {"evaluate": Host(evaluate)})
+
+            fsyms = [Sym(f"field:{n}", {"_name": n, "name": n}) for n in fields]
+            parser = Sym("parser", {"cstruct": Sym("cs", {"consts": dict(consts)})})
+            env = {"Expression": Host(expression), "any": any, "isinstance": Host(lambda o, k: False), "__exc_parents__": repo_exception_parents(repo)}
+            try:
+                got: Any = Evaluator(env, steps=3000).call_user(UserFunc(fi.node), [parser, text, fsyms], {})
+            except Raised as e:
+                got = f"raise {e}"
+            out["cases"] += 1
+            kind = "expr" if isinstance(got, Sym) and got.label.startswith("expr:") else got
+            if kind != want:
+                out["bad"].append((text, fields, consts, kind, want))
+        return out
+    except Refused:
+        return None
+    except (TypeError, KeyError, IndexError, ValueError, AttributeError, SyntaxError):
+        return None
+
+
+def fold_union_rebuild(repo: Repo) -> dict | None:
+    """Union._rebuild(attr) on model unions: the member's encoding replaces exactly the bytes at the member's offset in the current buffer (all zeros
+    when there is none yet), the rest of the buffer stays, the members are re-read and re-proxified afterwards; a member value of None is written as
+    the type's default."""
+    fi = repo.func_opt("types/structure.py", "Union._rebuild")
+    if fi is None:
+        return None
+    out: dict = {"cases": 0, "bad": []}
+
+    def bytes_io(initial=b""):
+        buf = bytearray(initial)
+        st = {"pos": 0}
+
+        def write(b):
+            b = bytes(b)
+            end = st["pos"] + len(b)
+            if end > len(buf):
+                buf.extend(b"\x00" * (end - len(buf)))
+            buf[st["pos"]:end] = b
+            st["pos"] = end
+            return len(b)
+
+        def seek(p, whence=0):
+            st["pos"] = p if whence == 0 else (st["pos"] + p if whence == 1 else len(buf) + p)
+            return st["pos"]
+
+        return Sym("BytesIO", {}, {"write": Host(write), "seek": Host(seek), "tell": Host(lambda: st["pos"]), "getvalue": Host(lambda: bytes(buf)),
+                                   "read": Host(lambda n=-1: bytes(buf[st["pos"]:] if n is None or n < 0 else buf[st["pos"]:st["pos"] + n]))})
+
+    try:
+        for label, old, offset, value, enc, want in (
+            ("member at offset 0", b"\x11\x22\x33\x44", 0, 0xBEEF, b"\xef\xbe", b"\xef\xbe\x33\x44"),
+            ("member at offset 2", b"\x11\x22\x33\x44", 2, 0xBEEF, b"\xef\xbe", b"\x11\x22\xef\xbe"),
+            ("member at offset None", b"\x11\x22\x33\x44", None, 0xBEEF, b"\xef\xbe", b"\xef\xbe\x33\x44"),
+            ("no buffer yet", None, 2, 0xBEEF, b"\xef\xbe", b"\x00\x00\xef\xbe"),
+            ("a member that is None", b"\x11\x22\x33\x44", 0, None, b"\x00\x00", b"\x00\x00\x33\x44"),
+            ("a member that is 0", b"\x11\x22\x33\x44", 0, 0, b"\x00\x00", b"\x00\x00\x33\x44"),
+        ):
+            log: list = []
+
+            def w(stream, v, enc=enc, log=log):
+                log.append(("write", v))
+                return stream.methods["write"].fn(enc)
+
+            ftype = Sym("uint16", {"size": 2}, {"_write": Host(w), "__default__": Host(lambda: 0), "dumps": Host(lambda v, enc=enc: enc)})
+            field = Sym("field:m", {"offset": offset, "type": ftype, "_name": "m", "name": "m"})
+            ucls = Sym("U", {"size": 4, "lookup": {"m": field}, "fields": {"m": field}, "__fields__": [field], "dynamic": False})
+            stored: dict = {}
+            self_ = Sym("u", {"__class__": ucls, "m": value}, {"_update": Host(lambda log=log: log.append(("update",))), "_proxify": Host(lambda log=log: log.append(("proxify",)))})
+            if old is not None:
+                self_.attrs["_buf"] = old
+            self_.strict = False
+
+            def getattr_(o, n, *d):
+                if isinstance(o, Sym) and n in o.attrs:
+                    return o.attrs[n]
+                if d:
+                    return d[0]
+                raise AttributeError(n)
+
+            env = {"io": Sym("io", {}, {"BytesIO": Host(bytes_io)}), "BytesIO": Host(bytes_io), "getattr": Host(getattr_), "bytes": bytes, "len": len,
+                   "object": Sym("object", {}, {"__setattr__": Host(lambda o, n, v: o.attrs.__setitem__(n, v))}), "setattr": Host(lambda o, n, v: o.attrs.__setitem__(n, v))}
+            try:
+                Evaluator(env, steps=3000).call_user(UserFunc(fi.node), [self_, "m"], {})
+                got: Any = self_.attrs.get("_buf")
+            except Raised as e:
+                got = f"raise {e}"
+            out["cases"] += 1
+            order = [e[0] for e in log]
+            if got != want or order[:1] != ["write"] or "update" not in order or "proxify" not in order or order.index("update") > order.index("proxify"):
+                out["bad"].append((label, got.hex() if isinstance(got, bytes) else got, want.hex(), order))
+        return out
+    except Refused:
+        return None
     except (TypeError, KeyError, IndexError, ValueError, AttributeError):
         return None
 
